@@ -26,14 +26,17 @@ for tier in ("quick", "thorough"):
             key = (prop, v["signature"])
             if key in known:
                 continue
-            if not v["case"].get("pinned", True) and not v["case"]["id"].startswith(("grid", "crit", "range", "sort", "pin")):
-                print("  SKIP (seeded case, not learnable):", v["signature"], v["case"]["id"])
+            cid = str(v["case"].get("id", ""))
+            if not v["case"].get("pinned", True) and not cid.startswith(("grid", "crit", "range", "sort", "pin")):
+                print("  SKIP (seeded case, not learnable):", v["signature"], cid)
                 continue
             known.add(key)
             added += 1
             entry = {"property": prop, "signature": v["signature"], "status": "open",
                      "what": (what + " " if what else "") + v["detail"][:160].replace("\n", " "),
-                     "witness": {"id": v["case"]["id"], "cfg": v["case"]["cfg"], "range": v["case"].get("range"),
-                                 "src": v["case"]["src"] if len(v["case"]["src"]) < 1500 else None}}
+                     "witness": ({"id": cid, "cfg": v["case"].get("cfg"), "range": v["case"].get("range"),
+                                  "src": v["case"]["src"] if len(v["case"].get("src", "")) < 1500 else None}
+                                 if "src" in v["case"] else
+                                 (v["case"] if len(json.dumps(v["case"])) < 3000 else {"note": "case too large, see the pinned family", "argv": v["case"].get("argv")}))}
             out.write(json.dumps(entry, sort_keys=True) + "\n")
 print("added", added)
